@@ -6,6 +6,39 @@ E2 = 'E2 hist'
 E3 = 'E3 sched'
 
 CHECKS = {
+    'C01': dict(
+        engine=E1, design_ref='DESIGN.md section 7 C01',
+        technique='bounded-exhaustive enumeration of canonical ER7 shapes over every segment of every version table '
+                  '(each leaf alone, all leaves, repetitions, pairs, escape words) through the real parsers; oracle: string identity',
+        text='For every one of the 1,657 segment definitions of the 12 versions the check generates, from the tables, the '
+             'canonical text with each of the 272,329 leaf positions filled alone (typed literal and plain text), with all '
+             'leaves filled (1-2 repetitions; thorough 3 with an empty middle one, all leaf pairs inside a field, all field '
+             'pairs, escape-language words), feeds it to parse_segment / parse_field / parse_component and, wrapped in a '
+             'message whose structure lists the segment, to parse_message with find_groups on and off under default and two '
+             'custom delimiter sets, and requires to_er7() to return the input. Complete for the stated shapes; leaf text is '
+             'one literal per datatype.',
+        note='trusted: reference ER7 encoder (generator) and the tables as definition of positions; 34 known table defects keyed per (version, segment)'),
+    'C02': dict(
+        engine=E1, design_ref='DESIGN.md section 7 C02',
+        technique='exhaustive enumeration of every table row (version x segment x field x component x subcomponent; version '
+                  'x datatype x component) and open-ended indices on the real build/encode/parse API; oracle: reference encoder equality',
+        text='Every field row (24,727), every leaf position (272,329), every complex-datatype component/subcomponent through '
+             'a Z-field scaffold, every base datatype, and Z-/varies-ended segments over indices 1..64 (thorough 512; ordered '
+             'pairs of 12 indices; assign-then-delete) are built by name, encoded and compared with the reference encoding of '
+             '"value at (i,j,k), nothing else"; the reference text is parsed back and looked up under the same name. Every '
+             'segment and datatype is instantiated. Exhaustive over the tables.',
+        note='trusted: tables define positions (field number = number in the name); reference encoder; 63 known table defects (D1-D3) keyed by full position map'),
+    'C13': dict(
+        engine=E1, design_ref='DESIGN.md section 7 C13',
+        technique='exhaustive enumeration of date / time-of-day / offset / fraction grids, single-position substitutions and '
+                  'all short numeric strings through the real factories under both levels; three-valued reference lexical definitions',
+        text='Complete grids (DT years x months 00-13 x days 00-32; TM 00-29 x 00-69 x 00-69 at three precisions; all offsets '
+             '+/-HH(00-29)MM(00-69); fraction forms; DTM date grid x time precisions and calendar boundaries), every valid '
+             'literal with every position replaced by each of 17 symbols (for all 12 versions, via factory and SubComponent), '
+             'all strings <= 4 (5) over a 9-symbol numeric alphabet for NM and SI, and lengths at/above every maximum length '
+             'are classified by independent lexical definitions into must-accept / must-reject / unspecified and compared '
+             'with STRICT acceptance, the re-encoded text, TOLERANT verbatim preservation and utils.check_*.',
+        note='trusted: python calendar module, reference regular expressions; unspecified band (years<1000, +14MM/-12MM, .5/5., +SI) never reported'),
     'C06': dict(
         engine=E1, design_ref='DESIGN.md section 7 C06',
         technique='bounded-exhaustive enumeration (all strings <= 5/6 over the delimiter/escape alphabet x every textual '
